@@ -63,6 +63,27 @@ CHECKS = {
  "C18": ("Grammars repeating 9 texts across '..', \"..\", /../ with optional lookaheads, inline or via primary non-terminals, with %on / %skip: the number each occurrence carries in PRODUCTIONS / export model is the number whose scanner pattern is that occurrence's expansion; numbers shared iff identity equal; names, skip list, transitions, LR actions consistent; end-to-end parse of own samples.",
          "One genuine defect (lookahead written once as string and once as regex gives two numbers) is a recorded finding.",
          "property-based testing (proptest): cross-artefact consistency invariant"),
+ "C19": ("Random LL and LALR grammars (conflict-resolved tables included) x token-level inputs, a ~1500-token repetition, random Unicode / lossy bytes / grammar-alphabet text, recovery on and off: no panic (debug assertions + overflow checks on), no internal-error result, at most 101 reported errors, termination decided by deterministic work counters.",
+         "Termination is a bounded-work check on explored inputs (64 x (tokens+1) x (productions+1) + 2000 builder/action calls), not a liveness proof. Non-termination of conflict-resolved LALR tables is a recorded finding.",
+         "property-based testing (proptest): crash / bounded-work oracle"),
+ "C20": ("Random grammars x inputs x option sets (trim, recovery off, depth limits 1..10^6): same verdict and identical action trace as the option-free run, or MaxParsingDepthExceeded, monotone in the limit, never a panic.",
+         "Action traces are compared through the harness's recording UserActionsTrait; trimmed runs have no tree to compare.",
+         "property-based testing (proptest): metamorphic over parser options"),
+ "C21": ("Random accepted grammars: analysis results, export model and the tables parsed out of the generated source agree (automata literally and by language, productions, LR actions/gotos as maps, names, skip lists, scanner modes and transitions, start index, MAX_K, option calls), all indices in range.",
+         "The generated source is read with syn and an own reader of the scanner! macro body.",
+         "property-based testing (proptest): three-way cross-artefact comparison"),
+ "C24": ("Random grammars biased to left-factoring ties generated six times in one process (fresh RandomState for every hash map in every run): parser source, trait source and expanded grammar byte-identical.",
+         "Process-level nondeterminism other than hash seeds (environment, time) is not explored; in-process repetition exposes hash-order dependence exactly like separate processes because every HashMap instance draws new keys.",
+         "property-based testing (proptest): metamorphic (repeat the computation, compare bytes)"),
+ "C25": ("Random grammars decorated with every PAR annotation and declaration: read -> render_par_string -> read, before and after transformation, compared field by field on exactly the aspects the property names.",
+         "Production-level collection/option attributes are rendered as comments by design and not compared.",
+         "property-based testing (proptest): round-trip"),
+ "C26": ("Valid generated grammars of all pools (annotated, hostile names, scanner grammars, wild LR grammars), token-level and byte-level mutants, random PAR token strings, both grammar types, K in {0,1,2,5,10}: every pipeline stage runs under catch_unwind; any panic is a violation keyed by its source location.",
+         "Stack overflow aborts are not catchable in-process; rustfmt invocation is excluded. One genuine defect (lalry panic on cyclic grammars) is a recorded finding.",
+         "property-based testing (proptest) with grammar-aware and byte-level mutation: crash oracle"),
+ "C33": ("Grammars with hostile non-terminal names, member names and terminal texts: generated sources parse with syn; terminal / non-terminal / type / member / variant / method names are valid non-keyword identifiers and pairwise distinct where required.",
+         "Semantic clashes with prelude items (a type named Box) are left to the compile check C22. Five naming defects are recorded findings with exact predicates.",
+         "property-based testing (proptest): invariant over generated source parsed with syn"),
 }
 
 def main():
